@@ -87,7 +87,16 @@ var c17FlagSets = []c17Flags{
 	{"normalize", false, true, []json.EncodeOptionFunc{json.DisableHTMLEscape()}},
 	{"html", true, false, []json.EncodeOptionFunc{json.DisableNormalizeUTF8()}},
 	{"none", false, false, []json.EncodeOptionFunc{json.DisableHTMLEscape(), json.DisableNormalizeUTF8()}},
+	// options that have nothing to do with string spelling leave it alone
+	{"html+normalize, DebugDOT option", true, true, []json.EncodeOptionFunc{json.DebugDOT(nopWriteCloser{})}},
+	{"html+normalize, Debug+DebugDOT+UnorderedMap options", true, true, []json.EncodeOptionFunc{json.DebugWith(io.Discard), json.DebugDOT(nopWriteCloser{}), json.UnorderedMap()}},
+	{"normalize, UnorderedMap option last", false, true, []json.EncodeOptionFunc{json.DisableHTMLEscape(), json.UnorderedMap()}},
 }
+
+type nopWriteCloser struct{}
+
+func (nopWriteCloser) Write(p []byte) (int, error) { return len(p), nil }
+func (nopWriteCloser) Close() error                { return nil }
 
 // c17CheckLiteral checks one emitted string literal against the input string.
 func c17CheckLiteral(litb []byte, in string, fl *c17Flags) string {
